@@ -165,7 +165,7 @@ theorem C40_window_live (P : Prims) (b0 : Block) (ops : List Op) (l : Ledger) (h
   rw [this] at h1
   simp only [Option.some.injEq, Prod.mk.injEq] at h1
   obtain ⟨e1, e2, e3⟩ := h1
-  rw [← e2, ← e3]
+  subst e2 e3
   exact ⟨e1.symm, h2⟩
 
 /-- **Window after a restart**: exactly the `MAX` newest heights `cur-MAX+1 … cur` (all of `0 … cur` while `cur < MAX`) — one less
@@ -181,9 +181,62 @@ theorem C40_window_after_restart (P : Prims) (b0 : Block) (ops : List Op) (l : L
     obtain ⟨cur, lo0, hi0⟩ := st
     simp only [hs, specRun, specStep, Option.some.injEq, Prod.mk.injEq] at h1
     obtain ⟨e1, e2, e3⟩ := h1
-    rw [← e1, e2, e1, e3]
-    rw [← e1] at h2 ⊢
-    rw [e1]
-    exact e1 ▸ h2
+    subst e1 e2 e3
+    exact h2
+
+/-- **The boundary height after a restart** (`cur - MAX`, the oldest height of the live window): it is NOT in the reloaded
+window, `GetBlockHash` answers it from the store, and all five queries still return the committed block. -/
+theorem C40_boundary_after_restart (P : Prims) (b0 : Block) (ops : List Op) (l : Ledger)
+    (h : runOps P (.commit b0 :: (ops ++ [.restart])) emptyLedger = some l) (g : Good P (committed (.commit b0 :: (ops ++ [.restart]))))
+    (long : headerIndexMaxSize ≤ l.curHeight) (b : Block)
+    (hb : (committed (.commit b0 :: (ops ++ [.restart])))[l.curHeight - headerIndexMaxSize]? = some b) :
+    mapGet (l.curHeight - headerIndexMaxSize) l.cache.idx = none
+      ∧ l.store.hgt (l.curHeight - headerIndexMaxSize) = some (P.hH b.hdr)
+      ∧ getBlockHash l (l.curHeight - headerIndexMaxSize) = some (P.hH b.hdr)
+      ∧ getBlockByHeight l (l.curHeight - headerIndexMaxSize) = some b
+      ∧ getBlockByHash l (P.hH b.hdr) = some b ∧ getHeaderByHash l (P.hH b.hdr) = some b.hdr
+      ∧ ∀ t ∈ b.txs, getTransaction l (P.hT t) = some (t, l.curHeight - headerIndexMaxSize) := by
+  have w := C40_window_after_restart P b0 ops l h g
+  have hp := maxSize_pos
+  have hnone : mapGet (l.curHeight - headerIndexMaxSize) l.cache.idx = none := by
+    cases hq : mapGet (l.curHeight - headerIndexMaxSize) l.cache.idx with
+    | none => rfl
+    | some x =>
+      have := (w.2.2.2 (l.curHeight - headerIndexMaxSize)).mp (by rw [hq]; rfl)
+      have hls : loadStart l.curHeight = l.curHeight - headerIndexMaxSize + 1 := by
+        unfold loadStart
+        have : l.curHeight + 1 > headerIndexMaxSize := by omega
+        simp only [this, if_true]
+      omega
+  obtain ⟨a1, a2, a3, a4, a5⟩ := C40_agree P _ l h g _ b hb
+  exact ⟨hnone, (C40_evicted P _ l h g _ b hb hnone).1, a1, a2, a3, a4, a5⟩
+
+/-- **Second trigger: header sync on a long live chain.**  After the genesis commit and `n ≥ MAX` further commits, `AddHeader` of the
+header for height `n+1` runs the eviction with the post-commit height `n`: the window becomes `n+1-MAX … n+1` and the boundary
+height `n - MAX` leaves the cache — it is answered from the store, all queries unchanged. -/
+theorem C40_window_after_header_sync (P : Prims) (b0 : Block) (ops : List Op) (x : Hash) (l : Ledger)
+    (hc : ∀ op ∈ ops, Op.isCommit op = true)
+    (h : runOps P (.commit b0 :: (ops ++ [.syncHeader x])) emptyLedger = some l)
+    (g : Good P (committed (.commit b0 :: (ops ++ [.syncHeader x])))) :
+    l.curHeight = ops.length ∧ WindowIs l (ops.length + 1 - headerIndexMaxSize) (ops.length + 2)
+      ∧ (headerIndexMaxSize ≤ ops.length → mapGet (ops.length - headerIndexMaxSize) l.cache.idx = none)
+      ∧ ∀ i b, (committed (.commit b0 :: (ops ++ [.syncHeader x])))[i]? = some b →
+          getBlockHash l i = some (P.hH b.hdr) ∧ getBlockByHeight l i = some b := by
+  obtain ⟨lo, hiE, h1, h2⟩ := C40_window P b0 _ l h g
+  rw [specRun_append] at h1
+  have hs := specRun_commits ops hc 0
+  simp only [Nat.zero_sub, Nat.zero_add] at hs
+  have hm : max (ops.length - headerIndexMaxSize) (ops.length + 1 - headerIndexMaxSize) = ops.length + 1 - headerIndexMaxSize := by omega
+  simp only [hs, specRun, specStep, if_true, hm, Option.some.injEq, Prod.mk.injEq] at h1
+  obtain ⟨e1, e2, e3⟩ := h1
+  subst e2 e3
+  refine ⟨e1.symm, h2, ?_, fun i b hb => ⟨(C40_agree P _ l h g i b hb).1, (C40_agree P _ l h g i b hb).2.1⟩⟩
+  intro long
+  cases hq : mapGet (ops.length - headerIndexMaxSize) l.cache.idx with
+  | none => rfl
+  | some y =>
+    have := (h2.2.2.2 (ops.length - headerIndexMaxSize)).mp (by rw [hq]; rfl)
+    have := maxSize_pos
+    omega
 
 end OntVerif.Props.C40
